@@ -1,4 +1,5 @@
 import RsslVerif.Spec.Dec2Bin
+import RsslVerif.Model.Lexer
 /-!
 # Model of `format_literal` (formatter/src/formatter.rs) on numeric literals
 
@@ -9,11 +10,17 @@ What the code does, arm by arm (the arms, guards and format strings are re-extra
 * floats (`f64` for the untyped and the `L` kind, `f32` for the `f` **and** the `h` kind — a half literal is kept
   and printed as a single): infinity by name (`1.#INF` + suffix for HLSL, `INFINITY` for Metal), `FLT_MAX` for the
   largest single on Metal, `-0.0`, whole values in `[-2^63, 2^63]` through `v as i64` with `.0` appended, larger
-  whole values as `Display` with `.0` appended, everything else as `Display` followed by the suffix.
+  whole values as `Display` with `.0` appended, everything else as `Display` followed by the suffix — except (since
+  fix 265a080) a single (`f` / `h` kind) whose `Display` digits, read the way the lexer reads a literal (nearest
+  double, narrowed once), are *not* the value again (`f32_digits_round_twice`): it is printed with `Display` of the same
+  value as a double (`*v as f64`) followed by the suffix.
 
-`Display` of a float is *not* computed here: the request carries the text Rust printed and the harness checks, with
-exact integer arithmetic, that it is a plain decimal whose nearest value is the value printed (the assumption of
-`Thm.C10.emit_value_exact`).  Core Lean only (linked into `rsslmodel_c10`).
+`Display` of a float is *not* computed here: the request carries the texts Rust printed (of the value, and for the
+single-precision kinds of the value as a double) and the harness checks, with exact integer arithmetic, that they are
+plain decimals whose nearest value is the value printed (the assumption of `Thm.C10.emit_value_exact`).  The guard
+`f32_digits_round_twice` *is* computed here (`roundTwice?`): `str::parse::<f64>` is the nearest double of the digits
+(`nearest64`, the reading `calculate_float64_from_parts` of the lexer uses as well) and `as f32` is `narrow32`.
+Core Lean only (linked into `rsslmodel_c10`).
 -/
 namespace RsslVerif.Model.LitFormat
 open RsslVerif.Spec
@@ -86,9 +93,44 @@ def infText (k : Kind) (msl : Bool) : Except String Bytes :=
     if k = .f64 then .error "panic: invalid msl" else .ok (str "INFINITY")
   else .ok (infHlsl ++ k.suffix)
 
+/-- a plain decimal `L` or `L.R` (both digit runs non-empty, nothing else): what `Display` writes for a finite
+non-negative float.  Anything else is outside the model (`none`). -/
+def parsePlain (t : Bytes) : Option (List Nat × List Nat) :=
+  match Lexer.spanDigits t with
+  | ([], _) => none
+  | (L, []) => some (L, [])
+  | (L, 46 :: r) =>
+    (match Lexer.spanDigits r with
+     | ([], _) => none
+     | (R, []) => some (L, R)
+     | _ => none)
+  | _ => none
+
+/-- `f32_digits_round_twice(v)` = `v.to_string().parse::<f64>().map(|d| d as f32) != Ok(v)` on a finite single with
+magnitude `mag`: the `Display` text (its `-` taken off for a negative value: rounding is symmetric) read as the nearest
+double and narrowed once is not the value.  `none`: the text is not a plain decimal (outside the model). -/
+def roundTwice? (neg : Bool) (mag : Nat) (disp : Bytes) : Option Bool :=
+  let body : Option Bytes := if neg then (match disp with | 45 :: d => some d | _ => none) else some disp
+  match body with
+  | none => none
+  | some d =>
+    match parsePlain d with
+    | none => none
+    | some (L, R) => some (Dec2Bin.narrow32 (Dec2Bin.nearest64 (L ++ R) (0 - (R.length : Nat))) != mag)
+
+/-- `*v as f64` on the magnitude of a finite single: the double with exactly the same value -/
+def widen32 (mag : Nat) : Nat :=
+  let mq := Dec2Bin.decode Dec2Bin.binary32 mag
+  if 0 ≤ mq.2 then Dec2Bin.nearestRat Dec2Bin.binary64 (mq.1 * 2 ^ mq.2.toNat) 1
+  else Dec2Bin.nearestRat Dec2Bin.binary64 mq.1 (2 ^ (-mq.2).toNat)
+
+/-- what `fmtFloat` answers when a `Display` text is not a plain decimal -/
+def notPlain : String := "unsupported: Display is not digits[.digits]"
+
 /-- `format_literal` on a float literal: `bits` is the stored bit pattern (sign included), `disp` Rust's `Display`
-of the stored value -/
-def fmtFloat (k : Kind) (msl : Bool) (bits : Nat) (disp : Bytes) : Except String Bytes :=
+of the stored value, `disp64` Rust's `Display` of the stored value as a double (`*v as f64`; read only for the
+single-precision kinds, and only when `f32_digits_round_twice` holds) -/
+def fmtFloat (k : Kind) (msl : Bool) (bits : Nat) (disp disp64 : Bytes) : Except String Bytes :=
   let f := k.fmt
   let neg := decide (signBit f ≤ bits)
   let mag := bits % signBit f
@@ -107,16 +149,22 @@ def fmtFloat (k : Kind) (msl : Bool) (bits : Nat) (disp : Bytes) : Except String
         let shown := if neg then n else Nat.min n (2 ^ 63 - 1)
         .ok ((if neg then [45] else []) ++ decText shown ++ dotZero ++ k.suffix)
       else .ok (disp ++ dotZero ++ k.suffix)
-    | none => .ok (disp ++ k.suffix)
+    | none =>
+      if k = .f16 ∨ k = .f32 then
+        match roundTwice? neg mag disp with
+        | some true => .ok (disp64 ++ k.suffix)
+        | some false => .ok (disp ++ k.suffix)
+        | none => .error notPlain
+      else .ok (disp ++ k.suffix)
 
 /-- `format_literal` on an integer literal: `bits` is the 64-bit payload (two's complement for `IntSigned64`) -/
 def fmtInt (k : Kind) (bits : Nat) : Bytes :=
   if k = .s64 ∧ 2 ^ 63 ≤ bits then 45 :: decText (2 ^ 64 - bits) ++ k.suffix
   else decText bits ++ k.suffix
 
-def fmtLiteral (k : Kind) (msl : Bool) (bits : Nat) (disp : Bytes) : Except String Bytes :=
+def fmtLiteral (k : Kind) (msl : Bool) (bits : Nat) (disp disp64 : Bytes) : Except String Bytes :=
   match k with
   | .int | .u32 | .u64 | .s64 => .ok (fmtInt k bits)
-  | _ => fmtFloat k msl bits disp
+  | _ => fmtFloat k msl bits disp disp64
 
 end RsslVerif.Model.LitFormat
